@@ -34,7 +34,7 @@ func VInv(m *Map[int, int]) {
 func VHMapStep() {
 	keys, vals := maps.VPairs(false)
 	m := VGMapOf(keys, vals)
-	maps.VMapStep(m, keys, vals, maps.VKind{Ordered: true, Inv: func() { VInv(m) }})
+	maps.VMapStep(m, keys, vals, maps.VKind{Name: "LinkedHashMap", Ordered: true, Inv: func() { VInv(m) }})
 }
 
 func VHIter() {
